@@ -721,6 +721,13 @@ static void item_finds(struct item_walk *w, const group *g, const relation *pare
 	g->each(item_descend, w);
 	w->rel = save;
 }
+/* chain of node relations along the parent links: anc[0] = the node itself, anc[d - 1] = its root */
+static convertable *nrel_find(const tnode **anc, int i, const relation *parent, const char *key)
+{
+	node_relation rel(anc[i], parent);
+	if (i == 0) return rel.find(0, key, -1);
+	return nrel_find(anc, i - 1, &rel, key);
+}
 struct item_stop { int n, stop; };
 static int item_count_stop(void *ctx, const identifier *, convertable *, const collection *)
 {
@@ -1250,6 +1257,21 @@ static void drv_step(struct cmd *c)
 		free(txt);
 	}
 #ifdef TU_CXX
+	else if (!strcmp(a, "nrel")) {
+		const tnode *anc[MAXN + 1];
+		const tnode *x;
+		convertable *cv;
+		int d = 0, i, hit = 0;
+		for (x = n; x && d <= MAXN; x = x->parent) anc[d++] = x;
+		cv = nrel_find(anc, d - 1, 0, arg_name(c, "key"));
+		if (cv) {
+			hit = -1;
+			for (i = 1; i <= nmax; i++) {
+				if (tabstate[i] == 1 && tab[i]->_meta && static_cast<convertable *>(tab[i]->_meta) == cv) hit = i;
+			}
+		}
+		RET_NUM(c, hit);
+	}
 	else if (!strcmp(a, "croot")) {
 		/* the values below n assigned path by path to a config::root, (del=1) the first top-level element
 		 * removed and the first path assigned again; then the store is walked */
